@@ -181,6 +181,9 @@ def _builder(o):
         hs = [h for h in K.plan_l3() if h["name"] == hname]
         v = hs[0]["variant"] if hs else "step"
         return hs, (lambda d, hh, v=v: K.build_l3(d, hh, v)), "l3" + v, "axl3", "gen_l3"
+    if unit == "kani_disp":
+        hs = [h for h in K.plan_disp() if h["name"] == hname]
+        return hs, (lambda d, hh: K.build_disp(d, hh)), "disp", "axdisp", "gen_disp"
     if unit == "kani_elf":
         hs = [h for h in K.plan_elf() if h["name"] == hname]
         return hs, (lambda d, hh: K.build_elf(d, hh)), "elf", "axelf", "gen_elf"
